@@ -64,14 +64,15 @@ AdoptInputs(DD, e) ==
 
 \* the cells an element operation names exists in the definitions (on a broken tree the
 \* library may still serve an object whose definition is gone: the verdict stays total)
-CellOK(e) == NodeExists(D, <<e.c[1], e.c[2], e.c[3], <<>>>>)
+CellMissing(e) == /\ CtxExists(D, <<e.c[1], e.c[2]>>)
+                  /\ e.c[3] \notin ENames(D, CtxBase(D, <<e.c[1], e.c[2]>>), "cells")
 
 DAfterOK(e) ==
     CASE e.op = "set_value" ->
-            IF ~CellOK(e) THEN D ELSE
+            IF CellMissing(e) THEN D ELSE
             [D EXCEPT !.inp = Upd(@, NodeOfEv(D, e), e.v)]
       [] e.op = "clear_at" ->
-            IF ~CellOK(e) THEN D ELSE
+            IF CellMissing(e) THEN D ELSE
             [D EXCEPT !.inp = Drop(@, {NodeOfEv(D, e)})]
       [] e.op = "clear" -> D
       [] e.op = "clear_all" ->
@@ -225,14 +226,14 @@ EventViol(e, D2, ta) ==
                          IF CalledThrough(D, NodeOfEv(D, e)) \cap (taint \cup ta) # {}
                          THEN ta \cup {NodeOfEv(D, e)} ELSE ta)
               \cup (IF "tb" \in DOMAIN e THEN TracebackLabels(Tag, e.res, IF "tbx" \in DOMAIN e THEN e.tbx ELSE ChainOf(e.fx), e.tb) ELSE {})
-         \* a cells that the definitions do not have answered with a value
-         ELSE Lbl(IsErr(e.res), "C01.Transparent")
+         \* a cells that the definitions do not have (in a space they do have) answered with a value
+         ELSE IF CellMissing(e) THEN Lbl(IsErr(e.res), "C01.Transparent") ELSE {}
     ELSE IF ~Accepted(e)
     THEN RejectedLabels(Tag, pdefs, IF "defs" \in DOMAIN e.post THEN e.post.defs ELSE pdefs, data, dl)
          \* (a quietly observed history reports no definitions between its operations)
     ELSE IF e.op = "write_read"
     THEN WriteReadLabels(Tag, D2, e, pdefs, data, dl)
-    ELSE IF e.op \in {"set_value", "clear_at"} /\ ~CellOK(e)
+    ELSE IF e.op \in {"set_value", "clear_at"} /\ CellMissing(e)
     THEN Lbl(FALSE, "C13.NoResidue")      \* an edit of an object whose definition is gone was accepted
     ELSE IF e.op \in {"set_value", "clear_at"}
     THEN ValueEditLabels(Tag, D, D2, e.op = "set_value", NodeOfEv(D, e), data, dl, e.fx,
